@@ -142,6 +142,8 @@ pub fn resolve(mods: &ModuleSet, loc: &Locator) -> Result<Graph> {
 
     let env = &mut Env::new();
     stdlib::import(env)?;
+    // The module's own scope, so that its declarations shadow the built-ins.
+    env.open();
 
     let tree = mods.get(loc).unwrap();
     let prog = Program::cast(tree.root()).expect("root should be a program");
